@@ -1,5 +1,20 @@
-"""C06 second half: the in-range helper used by offer filtering, the store RPC and gossip (filled in with the net engine)."""
+"""C06 second half: the in-range helper used by offer filtering, the store RPC and gossip (Trace_InRange.tla)."""
+import vlib
+import check_net
 
 
 def run(ctx):
-    return
+    n = 60000 if ctx.tier == "thorough" else 12000
+    known = check_net.known_for("C06", {"InRangeLogDist": "Trace_InRange_LogDist.cfg"})
+    events = check_net.run_and_judge(ctx, "inrange", None, "Trace_InRange", extra_args=["--n", n], own={"inrange"}, known=known)
+    t = f = 0
+    for e in events:
+        if e.get("ev") == "inrange":
+            ctx.evaluations += 1
+            t += e["res"]
+            f += not e["res"]
+            if ctx.evaluations % 50 == 0:
+                ctx.distinct.add(vlib.digest([e["node"], e["radius"], e["id"]]))
+    ctx.cov["inrange_true"], ctx.cov["inrange_false"] = t, f
+    if t == 0 or f == 0:
+        raise vlib.NoVerdict("vacuity guard: in-range triples all gave the same answer")
